@@ -261,7 +261,7 @@ def hostile(rnd, seed):
         seg = rnd.choice(["all", "edge", "edge"])
     stall = rnd.random() < 0.25
     return program(plan, method, stream, lim, fin, seg, rnd, cancel=rnd.choice([None, None, None, rnd.randint(0, 12)]),
-                   conn=rnd.choice(["O", "O", "P:500", "F O", "R:300 O", "F", "F F"]), stall=stall,
+                   conn=rnd.choice(["O", "O", "P:500", "F O", "R:300 O", "F", "F F", "R:300", "F R:200", "R:100 R:200"]), stall=stall,
                    reqbody=body_bytes(rnd.choice([1, 5000, 20000, 60000]), 9) if stall and method == "POST" else b"")
 
 
@@ -280,19 +280,30 @@ def run(c, prop):
     c.add_mc("HttpAbs (request life cycle against every transport outcome; body <= 6, limits {0,1,3,6}, <= 2 interim responses)",
              vlib.tlc(SD, "HttpAbs", "HttpAbsMC.cfg", workers=8, timeout=600, coverage=True))
     c.cov["exhaustive"] = True
-    progs = []
-    for i, s in enumerate(cases):
-        progs.append(wellformed(s, rnd, i + c.seed))
-    nh = c.pick(1500, 50000) if prop == "C08" else c.pick(300, 5000)
-    for i in range(nh):
-        progs.append(hostile(rnd, i + c.seed))
-    # well-formed responses cancelled at every early instant
-    for i in range(c.pick(60, 600)):
-        s = simple_response(rnd, i)
-        p = wellformed(s, rnd, i)
-        progs.append(p.replace("\nend\n", "\ncancel %d\nend\n" % rnd.randint(0, 8)))
-    vlib.conformance(c, exe, progs, SD, "HttpTrace", "HttpTrace.cfg", "http", procs=12, shards=12, nontrivial=nontrivial,
-                     run_timeout=1200, tv_timeout=1500)
+    nh = c.pick(1500, 20000) if prop == "C08" else c.pick(300, 5000)
+
+    def programs():
+        for i, s in enumerate(cases):
+            yield wellformed(s, rnd, i + c.seed)
+        for i in range(nh):
+            yield hostile(rnd, i + c.seed)
+        # well-formed responses cancelled at every early instant
+        for i in range(c.pick(60, 600)):
+            p = wellformed(simple_response(rnd, i), rnd, i)
+            yield p.replace("\nend\n", "\ncancel %d\nend\n" % rnd.randint(0, 8))
+    # in batches: a program holds its response as hex text (megabytes for the largest), so neither all programs nor all
+    # recorded executions are kept in memory at once
+    batch, k, size = [], 0, 0
+    for p in programs():
+        batch.append(p)
+        size += len(p)
+        if len(batch) >= 2500 or size > 400 * 1000 * 1000:
+            vlib.conformance(c, exe, batch, SD, "HttpTrace", "HttpTrace.cfg", "http" if k == 0 else "http_%d" % k, procs=12, shards=12,
+                             nontrivial=nontrivial, run_timeout=1200, tv_timeout=1500)
+            batch, k, size = [], k + 1, 0
+    if batch:
+        vlib.conformance(c, exe, batch, SD, "HttpTrace", "HttpTrace.cfg", "http" if k == 0 else "http_%d" % k, procs=12, shards=12,
+                         nontrivial=nontrivial, run_timeout=1200, tv_timeout=1500)
     c.cov["rule"] = ("responses: structures of well-formed HTTP/1.x responses generated by TLC from HttpGen.tla (1xx interim blocks shorter/longer than the "
                      "final header block, three framings, chunk plans up to above the 1 MiB wait cap, OWS forms, body sizes relative to the limit) concretised "
                      "to bytes, plus structured hostile mutations (bad/huge/negative/whitespace chunk sizes, missing CRLF, NUL bytes, >64 KiB headers, 1xx "
